@@ -186,16 +186,20 @@ func init() {
 			return nil
 		},
 		Phases: []fw.Phase{
-			{Name: "case-trie-H1", Space: "lower-case strings of H1^<=5 x case assignments", Share: 4,
-				Run: func(w *fw.W) { w.Trie(alpha.H1, 1, 5) }, Eval: evalC11Case},
-			{Name: "case-trie-H1-data-isolated", Space: "hiding prefix + lower-case quote-free strings of H1^<=5 x case assignments: only the element-content context can fire (quick <=4, thorough <=5)", Share: 3,
-				Run: func(w *fw.W) { w.Trie(alpha.H1, 1, w.Pick(4, 5)) }, Eval: evalC11CaseIsolated},
+			{Name: "case-trie-H1", Space: "lower-case strings of H1^<=4 (quick) / <=5 (thorough) and of H1core^5 x case assignments", Share: 4,
+				Run: func(w *fw.W) { w.Trie(alpha.H1, 1, w.Pick(4, 5)) }, Eval: evalC11Case},
+			{Name: "case-trie-H1core-deep", Space: "lower-case strings of H1core^5 (quick) / ^5..6 (thorough) x case assignments", Share: 3,
+				Run: func(w *fw.W) { w.Trie(alpha.H1core, 5, w.Pick(5, 6)) }, Eval: evalC11Case},
+			{Name: "case-trie-H1-data-isolated", Space: "hiding prefix + lower-case quote-free strings of H1^<=5 x case assignments: only the element-content context can fire (quick <=3, thorough <=4)", Share: 3,
+				Run: func(w *fw.W) { w.Trie(alpha.H1, 1, w.Pick(3, 4)) }, Eval: evalC11CaseIsolated},
 			{Name: "case-trie-fragments", Space: "fragment alphabet (H2 + event/URL/scheme/doctype names)^<=3 (quick) / <=4 (thorough) x case assignments", Share: 4,
 				Run: func(w *fw.W) { w.Trie(c11Frag, 1, w.Pick(3, 4)) }, Eval: evalC11Case},
 			{Name: "case-vectors", Space: "every C04 grammar vector x case assignments", Share: 2,
 				Run: func(w *fw.W) { w.Each(len(vectors), func(i int) { w.Item(asciiLower(vectors[i]), "") }) }, Eval: evalC11Case},
-			{Name: "nul-trie-H1", Space: "H1^<=5 x 5 contexts x interior positions of name tokens", Share: 4,
-				Run: func(w *fw.W) { w.Trie(alpha.H1, 1, 5) }, Eval: evalC11Nul},
+			{Name: "nul-trie-H1", Space: "H1^<=4 (quick) / <=5 (thorough) x 5 contexts x interior positions of name tokens", Share: 4,
+				Run: func(w *fw.W) { w.Trie(alpha.H1, 1, w.Pick(4, 5)) }, Eval: evalC11Nul},
+			{Name: "nul-trie-H1core-deep", Space: "H1core^5 (quick) / ^5..6 (thorough) x 5 contexts x interior positions of name tokens", Share: 3,
+				Run: func(w *fw.W) { w.Trie(alpha.H1core, 5, w.Pick(5, 6)) }, Eval: evalC11Nul},
 			{Name: "nul-trie-fragments", Space: "fragment alphabet^<=3 (quick) / <=4 (thorough) x 5 contexts x interior positions", Share: 3,
 				Run: func(w *fw.W) { w.Trie(c11Frag, 1, w.Pick(3, 4)) }, Eval: evalC11Nul},
 			{Name: "nul-vectors", Space: "every C04 grammar vector x 5 contexts x interior positions", Share: 2,
